@@ -57,7 +57,7 @@ def apply_mutant(copy, m):
     path = os.path.join(copy, "src", "clikit", m["file"])
     s = open(path).read()
     if s.count(m["old"]) < 1:
-        raise SystemExit("mutant does not apply: %s %r" % (m["file"], m["old"]))
+        raise ValueError("mutant does not apply: %s %r" % (m["file"], m["old"][:80]))
     s = s.replace(m["old"], m["new"], 1 if not m.get("all") else -1)
     open(path, "w").write(s)
 
@@ -85,7 +85,13 @@ def main(argv):
             continue
         copy = make_copy()
         try:
-            apply_mutant(copy, m)
+            try:
+                apply_mutant(copy, m)
+            except ValueError as e:
+                bad += 1
+                print("%s #%d DOES-NOT-APPLY %s :: %s" % (prop, i, m["name"], e))
+                results.append({"property": prop, "mutant": i, "name": m["name"], "status": "DOES-NOT-APPLY"})
+                continue
             t = run_tests(copy) if tests else "-"
             rc, line, dt = run_check(prop, copy)
             status = "KILLED" if rc == 1 else ("HARNESS-ERROR" if rc == 2 else "SURVIVED")
